@@ -895,20 +895,15 @@ Definition all_renv : list renv :=
   bools) [DFail; DOk; DHang]) bools) bools) bools.
 Definition all_lst := [LIdle; LDial; LConnect; LUp; LCloseWait; LBackoff; LExit].
 
-(* the loop has been told to stop — Disconnect closed c.disconnected, or the context of the first Connect
-   is done and the broker does not complete a connection at that very moment (if it does, the select in
-   BaseClient.Connect may take the CONNACK arm and the loop goes on, on context.Background()) — and it is
-   not inside a Dial or Connect that nothing bounds *)
+(* the loop has been told to stop — Disconnect closed c.disconnected (which also aborts a handshake in
+   progress, fix 515978c), or the context of the first Connect is done and the broker does not complete a
+   connection at that very moment (if it does, the select in BaseClient.Connect may take the CONNACK arm and the
+   loop goes on, on context.Background()) — and it is not inside a Dial that nothing bounds *)
 Definition stoppable (st : lst) (e : renv) : bool :=
   (r_disc e || (loop_ctx_done e && negb (r_ack e))) &&
   match st with
   | LIdle => false
-  | LConnect => r_ack e || loop_ctx_done e || r_timeout e || r_base_done e
-  | LDial => match r_dial e with
-             | DHang => loop_ctx_done e
-             | DOk => r_ack e || loop_ctx_done e || r_timeout e
-             | DFail => true
-             end
+  | LDial => match r_dial e with DHang => loop_ctx_done e | _ => true end
   | _ => true
   end.
 
